@@ -106,6 +106,9 @@ func genHistory(t *rapid.T, w hWeights) hScenario {
 				op.Kind = rapid.SampledFrom(endCauseNames).Draw(t, "cause")
 			}
 			op.Fail = w.reopenFail > 0 && rapid.IntRange(0, 999).Draw(t, "refuse") >= 1000-w.reopenFail
+			if op.Fail {
+				op.Gap = rapid.IntRange(0, 1).Draw(t, "ackinpause")
+			}
 		}
 		return op
 	})
